@@ -251,6 +251,15 @@ def check_nonconstant(ctx: Ctx, rnd, tier):
             if not close(got, want, 1e-9):
                 ctx.violation("C08:ExponentialCoalescent:log_prob", f"exponential growth (theta={th}, growth={g}): {got!r} vs Kingman quadrature {want!r}; sampling {perm_s} "
                               f"coalescent {perm_c}", {"samp": perm_s, "coal": perm_c, "theta": th, "growth": g})
+            # scaling law over many orders of magnitude (times * c, theta * c, growth / c): the density shifts by -(n-1) log c;
+            # with c >= 1e6 the growth rate is tiny while growth * height is not
+            for cc in (1.0e3, 1.0e6, 1.0e8):
+                sc = float(C.ExponentialCoalescent(torch.tensor([th * cc]), torch.tensor([g / cc])).log_prob(heights * cc))
+                ctx.add("scaling_law_evaluations")
+                if not close(sc, got - (n - 1) * math.log(cc), 1e-8):
+                    ctx.violation("C08:ExponentialCoalescent:scaling-law", f"exponential growth (theta={th}, growth={g}): scaling times and size by {cc:g} and the growth "
+                                  f"rate by its inverse shifts the density by {sc - got!r}, expected {-(n - 1) * math.log(cc)!r}", {"samp": perm_s, "coal": perm_c, "c": cc})
+                    break
         except Exception as e:
             ctx.violation("C08:ExponentialCoalescent:raises", f"{type(e).__name__}: {e}", {"samp": perm_s, "coal": perm_c})
         # piecewise linear: thetas at 0 and at the grid points, constant beyond the last
